@@ -229,6 +229,59 @@ def run(ctx):
             sch.append((j, "solve", 0, 0))
         g.play(sch)
         runs += g.finish(pairs, sch)
+    # several solvers built on ONE Problem object (a study repeated with other parameters), sequentially and interleaved
+    for gi in range(3 if qk else 15):
+        g = Group(rng, 3, "same-problem%d" % gi, lazy=(gi % 2 == 0), share_problem=True)
+        if gi % 2 == 0:
+            sch = [(1, "solve", 0, 0), (2, "solve", 0, 0), (3, "dgi", 4, 0), (3, "solve", 0, 0)]
+        else:
+            sch = [(1, "dgi", 3, 0), (2, "dgi", 2, 0), (1, "dgi", 2, 0), (3, "dgi", 5, 0), (2, "solve", 0, 0), (1, "solve", 0, 0), (3, "solve", 0, 0)]
+        g.play(sch)
+        runs += g.finish(pairs, sch)
+    # the SAME Problem object handed to several Solvers (no recording wrapper in between: the object itself is what they share)
+    import contextlib
+    import io
+    from iOpt.solver import Solver
+    from iOpt.solver_parametrs import SolverParameters
+
+    class LoggedProblem(FnProblem):
+        def __init__(self, *a, **kw):
+            super().__init__(*a, **kw)
+            self.seqs, self.current = {}, None
+
+        def Calculate(self, point, functionValue):
+            out = super().Calculate(point, functionValue)
+            self.seqs.setdefault(self.current, []).append([qv(point.floatVariables), q(float(out.value))])
+            return out
+
+    for gi in range(3 if qk else 20):
+        n = rng.choice([1, 2, 2, 3])
+        lo, up = rand_box_solver(rng, n)
+        fseed = rng.randrange(1 << 30)
+        name, f = objective_zoo(_r.Random(fseed), n, lo, up)
+        confs = [scen.rand_params(rng, n) for _ in range(3)]
+        order = [("A", "dgi", 4), ("B", "solve", 0), ("A", "solve", 0), ("C", "solve", 0)] if gi % 2 == 0 else \
+                [("A", "solve", 0), ("B", "dgi", 3), ("C", "dgi", 2), ("B", "solve", 0), ("C", "solve", 0)]
+
+        def drive(shared):
+            probs = {}
+            solvers = {}
+            P = LoggedProblem(n, lo, up, f, name)
+            for (who, (r_, eps, limit, m)) in zip("ABC", confs):
+                probs[who] = P if shared else LoggedProblem(n, lo, up, f, name)
+                solvers[who] = Solver(probs[who], parameters=SolverParameters(r=r_, eps=eps, itersLimit=min(limit, 40), evolventDensity=m))
+            with contextlib.redirect_stdout(io.StringIO()):
+                for (who, call, k) in order:
+                    probs[who].current = who
+                    if call == "dgi":
+                        solvers[who].DoGlobalIteration(k)
+                    else:
+                        solvers[who].Solve()
+            return {who: probs[who].seqs.get(who, []) for who in "ABC"}
+        together, alone = drive(True), drive(False)
+        for who in "ABC":
+            pairs.add("SoloSequence", "equal", together[who], alone[who],
+                      {"schedule": order, "solver": who, "objective": name, "kind": "three solvers on one Problem object vs. each on an object of its own"})
     # one solver's objective is interrupted (KeyboardInterrupt / SystemExit / GeneratorExit raised inside it, contained by its Solve): the
     # others, running before, in between and afterwards, are not concerned
     for gi in range(2 if qk else 10):
